@@ -118,7 +118,7 @@ func (d *c08DC) exchange(network string, payload []byte, wait time.Duration) (re
 }
 
 var c08Via = []struct{ via, proto string }{
-	{"udp", "dns-udp"}, {"tcp", "dns-tcp"}, {"dot", "dot"}, {"doh-post", "doh"}, {"doh-get", "doh"}, {"doq", "doq"},
+	{"udp", "dns-udp"}, {"udp", "dns-udp"}, {"tcp", "dns-tcp"}, {"dot", "dot"}, {"doh-post", "doh"}, {"doh-get", "doh"}, {"doq", "doq"},
 	{"dnscrypt-udp", "dnscrypt-udp"}, {"dnscrypt-tcp", "dnscrypt-tcp"},
 	// the JSON API asked for a wire-format answer (/resolve?...&ct=application/dns-message):
 	// the server builds the query itself (OPT with size 65535 iff do=1 or sde=1)
@@ -138,10 +138,11 @@ func TestVerifC08Sock(t *testing.T) {
 
 	// one laboratory per configured maximum of the plain-DNS server; the first
 	// one also carries DoT/DoH/DoQ/DNSCrypt traffic
-	cfgs := []int{dns.MaxMsgSize, 512, 1232, 4096}
+	// (also maxima below the classic 512 bytes, zero included: the bound is then 512)
+	cfgs := []int{dns.MaxMsgSize, 512, 1232, 4096, 0, 300}
 	labs := map[int]*vlab{}
 	for i, c := range cfgs {
-		labs[c] = vlabStart(t, c08Handler{}, vlabConf{MaxUDPRespSize: uint16(c), NoDNSCrypt: i != 0})
+		labs[c] = vlabStart(t, c08Handler{}, vlabConf{MaxUDPRespSize: uint16(c), ZeroMaxUDP: c == 0, NoDNSCrypt: i != 0})
 		labs[c].Wait = 150 * time.Millisecond
 	}
 	main := labs[dns.MaxMsgSize]
@@ -157,7 +158,8 @@ func TestVerifC08Sock(t *testing.T) {
 		v := c08Via[i%len(c08Via)]
 		cfg := dns.MaxMsgSize
 		if v.proto == "dns-udp" {
-			cfg = cfgs[rng.Intn(len(cfgs))]
+			// (the small maxima more often: there the bound is the classic 512 whatever the client advertises)
+			cfg = append(cfgs, 0, 300, 512)[rng.Intn(len(cfgs)+3)]
 		}
 		c := g.Next(v.proto, c08SockSizes, cfg)
 		if v.proto == "doq" {
